@@ -42,7 +42,7 @@ def has_type(p, t):
 
 
 def rand_dag(rng, n_in=None, n_gates=None, consts=0.15, xconst=0.0, max_fanin=4, extra_out=0.2,
-             out_is_input=0.1, types=None, names=None):
+             out_is_input=0.1, types=None, names=None, loaded_in_out=0.0):
     """Random lint-clean acyclic blackbox-free circuit as a networkx graph (+ name).
 
     Every sink is an output (no dead logic); some internal nodes and some inputs are outputs too.
@@ -92,6 +92,8 @@ def rand_dag(rng, n_in=None, n_gates=None, consts=0.15, xconst=0.0, max_fanin=4,
             g.nodes[n]["output"] = True
         elif g.nodes[n]["type"] in GATES and rng.random() < extra_out:
             g.nodes[n]["output"] = True
+        elif g.nodes[n]["type"] == "input" and loaded_in_out and rng.random() < loaded_in_out:
+            g.nodes[n]["output"] = True      # a primary input that feeds logic AND is a primary output
     if not any(g.nodes[n]["output"] for n in g.nodes):
         last = list(g.nodes)[-1]
         g.nodes[last]["output"] = True
